@@ -483,21 +483,23 @@ func runSQLDistinct(c *core.Ctx) {
 		return
 	}
 	c.CountFuncs(1)
-	var distinct []*ssa.Call
-	var tagJoins []*ssa.Call
-	for _, ci := range calls(build) {
-		call, ok := ci.(*ssa.Call)
+	// (joins may be written through a private helper: the place that counts is the call
+	// site in the builder)
+	var distinct []ssa.Instruction
+	var tagJoins []ssa.Instruction
+	an.Region(build, nil, func(o an.Occ) {
+		call, ok := o.In.(*ssa.Call)
 		if !ok {
-			continue
+			return
 		}
 		n := an.CalleeName(&call.Call)
 		if strings.HasSuffix(n, "SelectDataset).Distinct") {
-			distinct = append(distinct, call)
+			distinct = append(distinct, o.Site())
 		}
-		if strings.HasSuffix(n, "SelectDataset).Join") && strings.Contains(an.PathOf(call.Call.Args[1]), `const:"event_tags"`) {
-			tagJoins = append(tagJoins, call)
+		if strings.HasSuffix(n, "SelectDataset).Join") && strings.Contains(o.Path(call.Call.Args[1]), `const:"event_tags"`) {
+			tagJoins = append(tagJoins, o.Site())
 		}
-	}
+	})
 	if len(tagJoins) == 0 {
 		c.Unknown(nil, fname(c, build), "distinct", P.Pos(build.Pos()), "no join with event_tags found")
 		return
